@@ -155,7 +155,8 @@ class PasqalDevice(cirq.devices.Device):
         return f'pasqal.PasqalDevice(qubits={sorted(self.qubits)!r})'
 
     def _value_equality_values_(self):
-        return self.qubits
+        # A device is its set of qubits, whatever container (and order) they were given in.
+        return frozenset(self.qubits)
 
     def _json_dict_(self) -> dict[str, Any]:
         return cirq.protocols.obj_to_dict_helper(self, ['qubits'])
@@ -287,7 +288,7 @@ class PasqalVirtualDevice(PasqalDevice):
         )
 
     def _value_equality_values_(self) -> Any:
-        return (self.control_radius, self.qubits)
+        return (self.control_radius, frozenset(self.qubits))
 
     def _json_dict_(self) -> dict[str, Any]:
         return cirq.protocols.obj_to_dict_helper(self, ['control_radius', 'qubits'])
